@@ -258,11 +258,13 @@ func (s *Store) startOrReuseFile() (fref *FileRef, file File, err error) {
 	defer s.m.Unlock()
 
 	if s.footer != nil {
-		slocs, _ := s.footer.segmentLocs()
+		s.footer.segmentLocs()
 		defer s.footer.DecRef()
 
-		if len(slocs) > 0 {
-			fref := slocs[0].mref.fref
+		// The top-level collection may have no segments of its own
+		// while its child collections do, and their segments have to
+		// stay in the same file as the ones appended next.
+		if fref := s.footer.fileRef(); fref != nil {
 			file := fref.AddRef()
 
 			return fref, file, nil
@@ -270,6 +272,23 @@ func (s *Store) startOrReuseFile() (fref *FileRef, file File, err error) {
 	}
 
 	return s.startFileLOCKED()
+}
+
+// fileRef returns the FileRef of the file that holds the loaded
+// segments of the footer or, when the footer has no segments of its
+// own, those of its child footers; nil when there are no segments.
+func (f *Footer) fileRef() *FileRef {
+	for i := range f.SegmentLocs {
+		if f.SegmentLocs[i].mref != nil {
+			return f.SegmentLocs[i].mref.fref
+		}
+	}
+	for _, childFooter := range f.ChildFooters {
+		if fref := childFooter.fileRef(); fref != nil {
+			return fref
+		}
+	}
+	return nil
 }
 
 func (s *Store) startFileLOCKED() (*FileRef, File, error) {
